@@ -72,11 +72,19 @@ def case_input(depth, existing, ops):
     return f"({cZ(depth)}, {clist([cN(n) for n in existing])}, {clist([op_term(o) for o in ops])})"
 
 
-TRACE_FN = "fun c => match c with (depth, existing, ops) => trace depth existing ops end"
-TRACE_FN_NOCOUNTERS = ("fun c => match c with (depth, existing, ops) => match trace depth existing ops with (l, lg, e) => "
-                       "(map (fun o => (fst o, (0%N, 0%N))) l, lg, e) end end")
-TRACE_FN_NOLIVE = ("fun c => match c with (depth, existing, ops) => match trace depth existing ops with (l, lg, e) => "
-                   "(l, map (fun x => match x with EvRun j b o _ => EvRun j b o 0 | y => y end) lg, e) end end")
+def trace_fn(counters=True, live=True):
+    """the model side of a comparison; counters=False: _num_jobs/_num_completed are not compared (private
+    attributes absent in impl); live=False: the live count carried by run events is not compared"""
+    obs = "l" if counters else "map (fun o => (fst o, (0%N, 0%N))) l"
+    lg = "lg" if live else "map (fun x => match x with EvRun j b o _ => EvRun j b o 0 | y => y end) lg"
+    return ("fun c => match c with (depth, existing, ops) => match trace depth existing ops with (l, lg, e) => "
+            f"({obs}, {lg}, e) end end")
+
+
+def strip_counters(obs):
+    return [dict(o, njobs=0, ncompleted=0) for o in obs]
+
+
 TRACE_IN = "Z * list N * list op"
 TRACE_OUT = "list obs * list ev * bool"
 
@@ -304,7 +312,7 @@ def gen_script(rng, small=False):
             block = [y for y in names if pos[y] < pos[x] and rng.random() < 0.35]
         else:   # blockers anywhere, also unknown names / cycles
             block = [y for y in names + [77] if y != x and rng.random() < 0.25]
-        jobs.append({"name": x, "block": sorted(block), "flag": rng.random() < 0.5})
+        jobs.append({"name": x, "block": sorted(block), "flag": rng.random() < 0.6})
     k = rng.choice([0, 0, 0, 1, 2, 3]) if rng.random() < 0.8 else rng.randint(0, depth + 2)
     existing = list(range(101, 101 + k))
     if existing and rng.random() < 0.3:   # existing entries can be blockers too
@@ -312,7 +320,7 @@ def gen_script(rng, small=False):
             if rng.random() < 0.3:
                 j["block"] = sorted(set(j["block"]) | {rng.choice(existing)})
     mode = rng.choice(["run_jobs", "run_jobs", "interleaved", "guarded"])
-    p_fail = rng.choice([0.0, 0.2, 0.5])
+    p_fail = rng.choice([0.0, 0.15, 0.35, 0.6])
     p_done = rng.choice([0.3, 0.6, 0.9])
     p_runfail = rng.choice([0.0, 0.0, 0.15])
 
@@ -644,6 +652,12 @@ def node_oracle(sc, res):
         missing = [b for b in spec[name]["block"] if str(b) not in rows]
         if missing:
             probs.append(("launch-before-blocker-outcome", f"job {name} started while blockers {missing} have no result row"))
+    for name in seen:
+        if spec[name]["flag"]:
+            bad = [b for b in spec[name]["block"] if any(rc != 0 or st == "canceled" for rc, st in res["rows"].get(b, []))]
+            if bad:
+                probs.append(("flagged-job-started-after-failed-blocker",
+                              f"job {name} has cancel_on_blocking_job_failure and was started although blockers {bad} failed or were canceled"))
     for n, rws in res["rows"].items():
         if len(rws) > 1:
             probs.append(("two-result-rows", f"job {n} has {len(rws)} result rows"))
